@@ -73,9 +73,7 @@ PROPS = {
         "level_note": "After a move std::optional keeps the source engaged (moved-from value) while OpResult disengages it; that difference is not flagged (the reference follows what the source reports), only the lifetime balance and the destination are checked.",
         "design_ref": "DESIGN.md §4 C40",
         "rule": "evaluation = one program; non-trivial = at least two operations completed including a mutating one",
-        # op classes count completed operations; assign_value / assign_value_rv never complete on the current tree (they
-        # always hit the known move-lifetime defect, whose KNOWN-FINDING keys prove that they ran), so they are not required
-        "required_classes": ["all-pairs", "random", "align8", "align64"] + ["op:" + o for o in _OR_OPS if not o.startswith("assign_value")],
+        "required_classes": ["all-pairs", "random", "align8", "align64"] + ["op:" + o for o in _OR_OPS],
         "assumptions": _A,
         "runs": {
             "quick": [{"config": "plain", "shards": 16, "args": {"n": 4000}}, {"config": "asan", "shards": 16, "args": {"n": 800}}],
